@@ -337,3 +337,28 @@ def ioworker_receive_buffer(b):
     "consume_drops_exactly_l_bytes": lambda res: res[2] == (buf + new)[l:],
     "peek_is_a_prefix": lambda res: res[3] == (buf + new)[l:][:3],
   })
+
+
+# ======================================================================================================
+# the type -> decoder table both read loops index with the type byte (added 2026-09-25, seeded change C10_7)
+# ======================================================================================================
+from pox.openflow.util import make_type_to_unpacker_table
+from spec.of10_layout import MESSAGE_TYPE as _MT
+
+
+@unit(P, target="pox.openflow.util:make_type_to_unpacker_table")
+def only_openflow_1_0_types_have_a_decoder(b):
+  """`ofp_type < len(unpackers)` (switch) / the IndexError of `unpackers[ofp_type]` (controller) is what sends a frame of
+  unknown type down the error path: the table has an entry for exactly the 22 message types of OpenFlow 1.0, and entry t
+  decodes the class whose header_type is t"""
+  t = b.int("t", 0, len(_MT) - 1)
+  def run(t):
+    r = make_type_to_unpacker_table()
+    c = r[t].__self__
+    return (len(r), c.header_type, c.__name__)
+  names = sorted(_MT, key=lambda k: _MT[k])
+  return Case(run, [t], raises={}, ensures={
+    "one_entry_per_specified_type": lambda res: res[0] == len(_MT),
+    "entry_t_decodes_type_t": lambda res: res[1] == t,
+    "entry_t_is_the_specified_message": lambda res: any([t == i and res[2] == names[i] for i in range(len(names))]),
+  })
